@@ -37,46 +37,57 @@ def _func_body(src, header_re, what):
     """text of the top-level func whose header matches header_re (up to the closing brace in column 0)"""
     m = re.search(header_re + r".*?\n}\n", src, re.S)
     if not m:
-        raise RuntimeError("C10 translator: %s not found in core/mr/mapreduce.go" % what)
+        raise RuntimeError("C10 translator: %s not found in core/mr" % what)
     return m.group(0)
 
 
+def _pkg_sources(rel):
+    """the non-test Go files of a package directory of the checked tree, concatenated (a declaration may move between files)"""
+    d = os.path.join(vlib.REPO, rel)
+    return "\n".join(open(os.path.join(d, f)).read() for f in sorted(os.listdir(d))
+                     if f.endswith(".go") and not f.endswith("_test.go"))
+
+
 def regen_constants():
-    """core/mr/mapreduce.go -> coq/gen/C10Consts.v: the worker constants and the shape of the output
-    protocol (does finish() close `output`? does guardedWriter.Write select on done while sending?).
-    Fails loudly when a shape is not recognised."""
-    src = open(os.path.join(vlib.REPO, "core/mr/mapreduce.go")).read()
+    """core/mr/*.go -> coq/gen/C10Consts.v: the worker constants and the shape of the output
+    protocol (does the call close `output` together with `done`? does guardedWriter.Write select on done while
+    sending?).  The recognisers do not depend on the names of locals, receivers or of the finish closure, nor on which
+    file of the package holds a declaration.  Fails loudly when a shape is not recognised."""
+    src = _pkg_sources("core/mr")
     consts = {}
     for name in ("defaultWorkers", "minWorkers"):
-        m = re.search(r"^\s*%s\s*=\s*(\d+)\s*$" % name, src, re.M)
+        m = re.search(r"^\s*(?:const\s+)?%s(?:\s+\w+)?\s*=\s*(\d+)\s*(?://.*)?$" % name, src, re.M)
         if not m:
             raise RuntimeError("C10 translator: constant %s not found (or not an integer literal)" % name)
         consts[name] = int(m.group(1))
     body = _func_body(src, r"\nfunc mapReduceWithPanicChan\[", "mapReduceWithPanicChan")
-    m = re.search(r"finish := func\(\) \{(.*?)\n\t\}\n", body, re.S)
-    if not m or "close(done)" not in m.group(1):
-        raise RuntimeError("C10 translator: shape of finish() not recognised")
-    closes_output = "close(output)" in m.group(1)
-    if ("close(output)" in src) != closes_output:
-        raise RuntimeError("C10 translator: close(output) outside finish()")
-    wbody = _func_body(src, r"\nfunc \(gw guardedWriter\[T\]\) Write\(", "guardedWriter.Write")
-    bare = re.search(r"default:\s*\n\s*gw\.channel <- v\s*\n", wbody) is not None
-    sel = re.search(r"default:\s*\n\s*select \{\s*\n\s*case gw\.channel <- v:(.|\n)*?case <-gw\.done:", wbody) is not None
-    if bare == sel or "case <-gw.done:" not in wbody or "case <-gw.ctx.Done():" not in wbody:
+    # the output channel (make(chan V)) and the done channel (make(chan struct{})) of the call, whatever their names
+    mo = re.search(r"\n\t(\w+) := make\(chan V\)", body)
+    md = re.search(r"\n\t(\w+) := make\(chan struct\{\}\)", body)
+    if not mo or not md:
+        raise RuntimeError("C10 translator: output / done channel of mapReduceWithPanicChan not found")
+    out_name, done_name = mo.group(1), md.group(1)
+    if "close(%s)" % done_name not in body:
+        raise RuntimeError("C10 translator: close(done) not found in mapReduceWithPanicChan")
+    closes_output = ("close(%s)" % out_name) in body
+    wbody = _func_body(src, r"\nfunc \(\w+ guardedWriter\[\w+\]\) Write\(", "guardedWriter.Write")
+    bare = re.search(r"default:\s*\n\s*\w+\.\w+ <- \w+\s*\n", wbody) is not None
+    sel = re.search(r"default:\s*\n\s*select \{\s*\n\s*case \w+\.\w+ <- \w+:(.|\n)*?case <-\w+\.\w+:", wbody) is not None
+    if bare == sel or len(re.findall(r"case <-\w+\.\w+(?:\.Done\(\))?:", wbody)) < 2:
         raise RuntimeError("C10 translator: shape of guardedWriter.Write not recognised")
     # the caller must take <-done where it took the closed output, iff output is never closed
-    main_done = re.search(r"\n\tcase <-done:", body) is not None
+    main_done = re.search(r"\n\tcase <-%s:" % re.escape(done_name), body) is not None
     # MapReduceVoid maps ErrReduceNoOutput to nil: for every error (errors.Is on the result, finding F29), or only
     # when nobody cancelled (the repair 65e1133, pending/applied/C10-void-cancelled-nooutput.diff)?
+    # Only the exact pre-repair shape counts as "swallows": a top-level errors.Is test and nothing that records a
+    # cancellation (the repaired code wraps the cancel funcs in closures).  Any other shape is taken as today's
+    # behaviour; the correspondence run decides (corpus: cancel(ErrReduceNoOutput) under MapReduceVoid / Finish).
     vbody = _func_body(src, r"\nfunc MapReduceVoid\[", "MapReduceVoid")
-    if "ErrReduceNoOutput" not in vbody:
-        raise RuntimeError("C10 translator: shape of MapReduceVoid not recognised")
-    swallows = re.search(r"\n\tif errors\.Is\(err, ErrReduceNoOutput\) \{", vbody) is not None
-    guarded = re.search(r"if [^\n]*cancelled[^\n]*&& errors\.Is\(err, ErrReduceNoOutput\)", vbody) is not None
-    if swallows == guarded:
-        raise RuntimeError("C10 translator: shape of MapReduceVoid not recognised")
+    test = r"errors\.Is\(\w+, ErrReduceNoOutput\)"
+    swallows = (re.search(r"\n\tif %s \{" % test, vbody) is not None
+                and re.search(r"func\(\w+ error\) \{", vbody) is None)
     text = "\n".join([
-        "(* GENERATED by tools/props/c10.py from core/mr/mapreduce.go of the checked tree at every run - do not edit. *)",
+        "(* GENERATED by tools/props/c10.py from core/mr/*.go of the checked tree at every run - do not edit. *)",
         "Definition gen_defaultWorkers : nat := %d." % consts["defaultWorkers"],
         "Definition gen_minWorkers : nat := %d." % consts["minWorkers"],
         "(* finish() = closeOnce.Do(close(done); close(output)) - false: output is never closed *)",
@@ -296,6 +307,12 @@ class C10(Property):
                 else:
                     c["gen"] = [["send", 1], ["panic", k]]
                 res.append(c)
+        # an error VALUE as a late panic (after the reducer's output was taken: the deferred loop re-raises it)
+        for k in (1011, 1008, 1013, 2000):
+            res.append({"api": "mr", "workers": 1, "gen": [["send", 1]], "maps": {"1": []}, "red": [["write", 42], ["panic", k]],
+                        "events": [["g"], ["g"], ["m", 1], ["r"], ["r"]]})
+            res.append({"api": "mr", "workers": 2, "gen": [["send", 1]], "maps": {"1": [["panic", k]]}, "red": [["write", 42]],
+                        "events": [["g"], ["g"], ["r"], ["r"], ["m", 1]]})
         # errorx.AtomicError itself
         res += [
             atomic_case([["load"], ["set", None], ["load"], ["set", 1011], ["load"], ["set", None], ["load"], ["set", 1008], ["load"],
@@ -923,8 +940,9 @@ class C10(Property):
 
     def describe_failure(self, case, obs):
         if case["api"] == "atomic":
-            return ("errorx.AtomicError (the retErr of a MapReduce call): Set(nil) must be ignored, a Set of any other interface value - "
-                    "a typed nil included - must be what Load returns (by identity) until the next Set; ops=%s observed [panicked, loaded]=%s "
+            return ("errorx.AtomicError (the retErr of a MapReduce call): Set(nil) must be ignored and must not panic; Load must return - by "
+                    "identity - one of the non-nil interface values Set so far (typed nils are such values), after a single Set that very "
+                    "value, and nil only if there is none; ops=%s observed [panicked, loaded]=%s "
                     "(codes: tools/props/c10.py SENTINELS; 1011 / 1015 are typed nils, null = the nil interface, -1 = a value nobody Set)"
                     % (case["aops"], obs.get("aobs")))
         late = self._late_return(case, obs) if obs.get("fired") else None
@@ -942,6 +960,12 @@ class C10(Property):
             return ("a cancel / panic / context end was executed before the result was decided, but the call returned a "
                     "normal result (result=%s events=%s acts=%s; cancel codes 1011 / 1015 are typed nils - non-nil error values -, "
                     "see SENTINELS in tools/props/c10.py)" % (obs["result"], obs["events"], obs["acts"]))
+        if obs["result"] and obs["result"][0] in ("other", "cancelnil", "cancel", "panic"):
+            return ("the call returned an error / re-raised a panic value that is not - by identity - a value some user function "
+                    "passed to cancel / panicked with (nor ErrCancelWithNil for cancel(nil), nor a context error after the context "
+                    "ended): result=%s; scripts gen=%s maps=%s red=%s (codes >= 1000: SENTINELS in tools/props/c10.py); or exactly-once "
+                    "mapping / the worker bound failed: mapped=%s reduced=%s peak=%s"
+                    % (obs["result"], case["gen"], case["maps"], case["red"], obs["mapped"], obs["reduced"], obs["peak"]))
         return ("exactly-once mapping/reduction, the worker bound, or the allowed result set was violated "
                 "(result=%s mapped=%s reduced=%s peak=%s)" % (obs["result"], obs["mapped"], obs["reduced"], obs["peak"]))
 
